@@ -28,6 +28,12 @@ DENSITY_FAMILIES = [
     (1.2e-3, ['1.2-3', '1.2e-3', '1.2E-3', '1.2D-3', '1.2d-3']),
     (2.5, ['2.5', '2.50']),
     (2.75, ['2.75', '2.750']),
+    # exponents that end in a zero digit, next to the same mantissa with
+    # another exponent (numerically different: must not share a composition)
+    (1.25e-10, ['1.25-10', '1.25e-10', '1.25E-10', '1.25d-10']),
+    (1.25e-1, ['1.25-1', '1.25e-1', '1.25E-1']),
+    (3.0e-20, ['3.0-20', '3.0e-20', '3.0E-20', '3.0d-20']),
+    (3.0e-2, ['3.0-2', '3.0e-2', '3.0E-2']),
 ]
 
 
@@ -81,6 +87,21 @@ class Builder:
         self.deck['surfaces'].append(md.surf(sid, kind, params, tr, bc))
         return sid
 
+    def maybe_surface_tr(self, sid, scale):
+        """Occasionally give a region surface its own TR number (it then
+        composes with fill transformations and TRCL)."""
+        d = self.draw
+        if not self.opts.get('surface_tr') or d(st.integers(0, 5)) != 0:
+            return
+        spec, _lab = d(gen.tr_spec(allow_abbrev=False, allow_13=False))
+        spec['o'] = [float(v) * 0.3 * scale / 4.0 for v in spec['o']]
+        self.trid += d(st.integers(1, 5))
+        self.deck['transforms'].append({'id': self.trid, 'spec': spec})
+        for s_ in self.deck['surfaces']:
+            if s_['id'] == sid:
+                s_['tr'] = self.trid
+        self.labels.add('surface-tr')
+
     # -- materials ---------------------------------------------------------
     def material(self):
         d = self.draw
@@ -112,18 +133,50 @@ class Builder:
         ``scale``; draws fresh surfaces."""
         d = self.draw
         kind = d(st.sampled_from(['sph', 'sph', 'cyl', 'slab', 'half',
-                                  'box', 'cone', 'half2', 'macro']))
+                                  'box', 'cone', 'half2', 'macro',
+                                  'facet']))
+        if kind == 'facet':
+            # a macrobody referenced through its facets; an existing body of
+            # this deck is reused when possible, so that one body is referenced
+            # as a whole and by several facets under the same transformation
+            from . import mgeom
+            bodies = [s_ for s_ in self.deck['surfaces']
+                      if s_['kind'].lower() in ('rpp', 'box', 'rcc', 'wed')
+                      and s_.get('tr') is None]
+            if bodies and d(st.booleans()):
+                body = d(st.sampled_from(bodies))
+                sid = body['id']
+            else:
+                mk = d(st.sampled_from(['rpp', 'box', 'rcc']))
+                k_, p_, _lab = d(gen.macro_params(mk))
+                p_ = _shrink_body(k_, p_, scale)
+                sid = self.add_surf(k_, p_)
+                body = self.deck['surfaces'][-1]
+            nf = mgeom.n_facets(body['kind'], body['params'])
+            self.labels.add('macro-facets')
+            f1 = md.F(d(st.sampled_from([1, -1])) * sid, d(st.integers(1, nf)))
+            how = d(st.integers(0, 2))
+            if how == 0:
+                return f1
+            f2 = md.F(d(st.sampled_from([1, -1])) * sid, d(st.integers(1, nf)))
+            if how == 1:
+                return md.AND(f1, f2)
+            return md.OR(md.AND(f1, f2), md.S(-sid))
         c = lambda: d(gen.coord(0.4 * scale))  # noqa: E731
         r = lambda: d(gen.length(0.25 * scale, 0.7 * scale))  # noqa: E731
         if kind == 'sph':
             if d(st.booleans()):
                 return md.S(-self.add_surf('so', [r()]))
-            return md.S(-self.add_surf('s', [c(), c(), c(), r()]))
+            sid = self.add_surf('s', [c(), c(), c(), r()])
+            self.maybe_surface_tr(sid, scale)
+            return md.S(-sid)
         if kind == 'cyl':
             ax = d(st.sampled_from('xyz'))
             if d(st.booleans()):
                 return md.S(-self.add_surf('c' + ax, [r()]))
-            return md.S(-self.add_surf('c/' + ax, [c(), c(), r()]))
+            sid = self.add_surf('c/' + ax, [c(), c(), r()])
+            self.maybe_surface_tr(sid, scale)
+            return md.S(-sid)
         if kind == 'slab':
             ax = d(st.sampled_from('xyz'))
             a = c()
@@ -151,8 +204,10 @@ class Builder:
             ax = d(st.sampled_from('xyz'))
             sheet = d(st.sampled_from([1.0, -1.0]))
             self.labels.add('one-sheet-cone')
-            return md.S(-self.add_surf('k/' + ax, [c(), c(), c(),
-                                                    d(gen.tan2()), sheet]))
+            sid = self.add_surf('k/' + ax, [c(), c(), c(), d(gen.tan2()),
+                                            sheet])
+            self.maybe_surface_tr(sid, scale)
+            return md.S(-sid)
         mk = d(st.sampled_from(['rcc', 'box', 'sph', 'rhp9', 'wed', 'ell-']))
         k, p, _lab = d(gen.macro_params(mk))
         p = _shrink_body(k, p, scale)
@@ -164,9 +219,23 @@ class Builder:
         """Return (ref or None, labels): None / {'num': n} / {'inline': spec}."""
         d = self.draw
         how = d(st.sampled_from((['none'] if allow_none else [])
-                                + ['num', 'inline', 'inline3', 'star']))
+                                + ['num', 'inline', 'inline3', 'star',
+                                   'identity']))
         if how == 'none':
             return None
+        if how == 'identity':
+            # an explicitly written identity is still "a transformation"
+            full = None if d(st.booleans()) else \
+                [1.0, 0.0, 0.0, 0.0, 1.0, 0.0, 0.0, 0.0, 1.0]
+            spec = md.trspec([0.0, 0.0, 0.0], full,
+                             n_entries=3 if full is None else 12)
+            self.labels.add('trref:identity')
+            if d(st.booleans()):
+                self.trid += d(st.integers(1, 5))
+                self.deck['transforms'].append({'id': self.trid,
+                                                'spec': spec})
+                return {'num': self.trid}
+            return {'inline': spec}
         spec, lab = d(gen.tr_spec(rot_classes=rot_classes, allow_abbrev=False,
                                   allow_13=False,
                                   translation_only_weight=(10 if how == 'inline3' else 1)))
@@ -174,7 +243,8 @@ class Builder:
         if how == 'star' and spec['full'] is not None and not spec['star']:
             spec['full'] = gen.to_degrees(spec['full'])
             spec['star'] = True
-        if how in ('inline', 'inline3') and spec['star']:
+        if how in ('inline', 'inline3') and spec['star'] \
+                and spec['full'] is not None:
             spec['full'] = [math.cos(math.radians(v)) for v in spec['full']]
             spec['star'] = False
         for l in lab:
@@ -295,9 +365,27 @@ class Builder:
             normals = (shear @ R)
             normals = normals / np.linalg.norm(normals, axis=1, keepdims=True)
             normals = normals[list(d(st.permutations([0, 1, 2])))]
+        via_facets = (not skew) and d(st.integers(0, 4)) == 0
+        rpp = [-50.0, 50.0, -50.0, 50.0, -50.0, 50.0]
+        rpp_id = None
+        if via_facets:
+            rpp_id = self.add_surf('rpp', rpp)
+            self.labels.add('lat:rpp-facets')
         for q, ax in enumerate(axes):
             p = d(gen.length(0.25 * scale, 0.6 * scale))
             a = d(gen.coord(0.2 * scale))
+            if via_facets:
+                k_ax = 'xyz'.index(ax)
+                rpp[2 * k_ax], rpp[2 * k_ax + 1] = a, a + p
+                pitches.append(p)
+                hi_leaf = md.F(-rpp_id, 2 * k_ax + 1)
+                lo_leaf = md.F(-rpp_id, 2 * k_ax + 2)
+                if d(st.booleans()):
+                    leaves += [hi_leaf, lo_leaf]
+                else:
+                    leaves += [lo_leaf, hi_leaf]
+                    self.labels.add('lat:low-side-first')
+                continue
             if skew:
                 n = [float(v) for v in normals[q]]
                 lo = self.add_surf('p', n + [a])
@@ -306,11 +394,30 @@ class Builder:
                 lo = self.add_surf('p' + ax, [a])
                 hi = self.add_surf('p' + ax, [a + p])
             pitches.append(p)
+            if not skew and d(st.integers(0, 5)) == 0:
+                # a TR card that maps the plane onto itself (translation
+                # within the plane): the lattice is unchanged
+                k_ax = 'xyz'.index(ax)
+                disp = [d(gen.coord(2.0)) for _ in range(3)]
+                disp[k_ax] = 0.0
+                self.trid += d(st.integers(1, 5))
+                self.deck['transforms'].append(
+                    {'id': self.trid,
+                     'spec': md.trspec(disp, None, n_entries=3)})
+                target = d(st.sampled_from([lo, hi]))
+                for s_ in self.deck['surfaces']:
+                    if s_['id'] == target:
+                        s_['tr'] = self.trid
+                self.labels.add('lat:plane-with-invariant-tr')
             if d(st.booleans()):
                 leaves += [md.S(-hi), md.S(lo)]       # high side first
             else:
                 leaves += [md.S(lo), md.S(-hi)]       # low side first
                 self.labels.add('lat:low-side-first')
+        if via_facets:
+            for s_ in self.deck['surfaces']:
+                if s_['id'] == rpp_id:
+                    s_['params'] = [float(v) for v in rpp]
         expr = leaves[0] if len(leaves) == 1 else md.AND(*leaves)
         # sub-universes
         n_sub = d(st.integers(1, 2))
@@ -558,6 +665,18 @@ def hex_lattice_universe(b, u, scale, force=None):
         else:
             sid = b.add_surf('p', [float(t) for t in n] + [dd])
             planes.append(md.S(-sid))
+        if d(st.integers(0, 4)) == 0:
+            # a TR card that maps the plane onto itself: translation along
+            # the prism axis and/or along the side
+            edge = ring[(k + 1) % 6] - ring[k]
+            tvec = w * d(gen.coord(3.0)) + edge * d(st.sampled_from(
+                [0.0, 0.0, 0.5, -1.0]))
+            b.trid += d(st.integers(1, 5))
+            b.deck['transforms'].append(
+                {'id': b.trid, 'spec': md.trspec([float(t) for t in tvec],
+                                                 None, n_entries=3)})
+            b.deck['surfaces'][-1]['tr'] = b.trid
+            b.labels.add('hex:plane-with-invariant-tr')
     k1 = d(st.integers(0, 5))
     step = d(st.sampled_from([1, -1, 2, -2]))
     k2 = (k1 + step) % 6
